@@ -274,3 +274,24 @@ Definition code_range_guarded : bool := true.
    INTEGER branch of operator+: native addition to the raw pointer - no null check, no containment check, the
    APPLICATION element size.  After it, n + p is p + n. *)
 Definition radd_before_fix (p n appsz : Z) : res Z := Ok (w64 (p + n * appsz)).
+
+(* ---------- operands held in sandbox memory (tainted_volatile): the i-th read of the cell returns [f i]
+   (the sandbox may rewrite the cell between two reads) ---------- *)
+Definition fetches := nat -> Z.
+
+(* operator[] on a fixed-size array with the index in a tainted_volatile: detail::unwrap_value(rhs) is evaluated once *)
+Definition arr_index_cell (k : ikind) (f : fetches) (len start elsize : Z) : res Z :=
+  arr_index k (f 0%nat) len start elsize.
+(* the variant that checks the first read and addresses with a second one *)
+Definition arr_index_cell_refetch (k : ikind) (f : fetches) (len start elsize : Z) : res Z :=
+  _ <- check ((0 <=? f 0%nat) && (wrap (unsigned_of k) (f 0%nat) <? len)) ;;
+  Ok (start + f 1%nat * elsize).
+
+(* p + *cell, p - *cell, p[*cell]: the operand is unwrapped once *)
+Definition ptr_arith_cell (l : list region) (sub : bool) (p : Z) (f : fetches) (stride : Z) : res Z :=
+  ptr_arith l sub p (f 0%nat) stride.
+(* the variant that checks the address computed from the first read and returns the one computed from a second read *)
+Definition ptr_arith_cell_refetch (l : list region) (sub : bool) (p : Z) (f : fetches) (stride : Z) : res Z :=
+  _ <- check (negb (p =? 0)) ;;
+  _ <- check (same_sbx l p (arith_target sub p (f 0%nat) stride)) ;;
+  Ok (arith_target sub p (f 1%nat) stride).
